@@ -62,8 +62,19 @@ def angle_groups(toks):
     return out
 
 
+# trait names with a multi-byte character at every distance from the end of the name (2-, 3- and 4-byte characters)
+NON_ASCII_NAMES = [pre + ch + 'n' * k for ch in ('\u00e9', '\u8a9e', '\U00010400') for k in range(0, 9) for pre in ('', 'A')]
+
 # legal (or at least parseable) but unusual spellings: every one must expand without a panic, as is and mutated
 EXTRA_SEEDS = [
+    # identifiers that are not ASCII (legal Rust): trait names of every length around the `Assign` suffix, items, fields
+    ('A', 'Ünsupported', 'struct X(u8);'), ('A', 'é', 'struct X(u8);'), ('A', 'ÄddAssign, Clone', 'struct X(u8);'),
+    ('A', 'Clone, αβγδεζAssign', 'struct X(u8);'), ('A', '日本語のトレイト', 'enum E { A }'), ('A', 'AddAssig\u00f1', 'struct X(u8);'),
+    ('A', 'Añadir', 'impl Add for X { type Output = X; fn add(self, r: X) -> X { self } }'),
+    ('A', 'ÀAssign', 'impl Add for X { type Output = X; fn add(self, r: X) -> X { self } }'),
+    ('A', 'Clone, Debug, PartialEq, Default', 'struct Größe { länge: u8, #[debug(ignore)] breite: Ünit }'),
+    ('D', '', '#[derive_ex(Clone, Debug, Ord, Hash)] enum Ärger { Öl(#[ord(key = $.größe())] Wert), Übel { straße: u8 } }'),
+    ('A', 'Clone(bound(Τ)), Debug', 'struct X<Τ>(Τ);'),
     # a bare trait object with several bounds as the (unsized) field: `&dyn A + B` in the output would be ambiguous
     ('A', 'Debug, Clone, PartialEq, Hash, Default', 'struct X { a: u8, b: () }'),
     ('D', '', '#[derive_ex(Debug, PartialOrd, PartialEq)] struct X((), (u8, ()));'),
@@ -263,6 +274,8 @@ class C16(Prop):
 
     def oracle(self, tier, rng, suspicious):
         seeds = corpus.load() + list(EXTRA_SEEDS)
+        seeds += [('A', nm + (', Clone' if k % 2 else ''), 'struct X(u8);') for k, nm in enumerate(NON_ASCII_NAMES)]
+        seeds += [('A', nm, 'impl Add for X { type Output = X; fn add(self, r: X) -> X { self } }') for nm in NON_ASCII_NAMES[::3]]
         # generator output as additional seeds
         gen_res = R.run_cases(self.cases('quick', rng)[:400])
         seeds += [(r.mode, r.attr, r.item) for r in gen_res]
